@@ -520,6 +520,9 @@ PATTERNS = ['ab', 'a', 'xyx', 'aa', 'mmm', 'b b', '.', 'yx', 'A', 'a.', '(', 'x*
 TEXT_FRAGMENTS = ['ab', 'xyx', 'xyxyx', 'aaa', 'a.a', 'b b', ' ', 'mmm', 'A', '(x*)', 'yx', '']
 
 
+_SCALE_EXPONENTS = (-60, -40, -33, -30, -27, -20, 20, 30, 40)
+
+
 def gen_misc(rng):
   sub = rng.choice(['r2tjur', 'r2tjur_rel', 'rreg', 'rreg', 'spd', 'ngrams', 'ngrams',
                     'patterns', 'mathutils', 'flip', 'xent', 'xent01', 'topkacc'])
@@ -613,7 +616,14 @@ def gen_misc(rng):
       y = [-v if rng.random() < 0.15 else (v if rng.random() < 0.1 else rng.randint(-40, 40) / 8)
            for v in x]
       batches.append([x, y])
-    return {'family': 'misc', 'sub': 'spd', 'config': {}, 'input': {'batches': batches}}
+    config = {}
+    if rng.random() < 0.4:
+      # the same data in other units (exact: a power of two): the metric is a ratio
+      # and does not depend on the unit; 2**-30 ~ 1e-9, 2**-40 ~ 1e-12
+      k = rng.choice(_SCALE_EXPONENTS)
+      config['scale_exp'] = k
+      batches = [[[v * 2.0 ** k for v in col] for col in b] for b in batches]
+    return {'family': 'misc', 'sub': 'spd', 'config': config, 'input': {'batches': batches}}
   if sub == 'ngrams':
     nb = rng.choice([1, 2])
     def text():
@@ -645,8 +655,19 @@ def gen_misc(rng):
         return NAN
       return rng.choice([rng.randint(-9, 9) * 1.0, rng.randint(-80, 80) / 8,
                          rng.uniform(-100, 100)])
-    return {'family': 'misc', 'sub': 'mathutils', 'config': {},
-            'input': {'a': [v(0.15) for _ in range(m)], 'b': [v(0.35) for _ in range(m)]}}
+    a, b = [v(0.15) for _ in range(m)], [v(0.35) for _ in range(m)]
+    config = {}
+    if rng.random() < 0.4:
+      # operands of other magnitudes (exact scaling by powers of two): a quotient
+      # of two tiny numbers is an ordinary number, 0 is the only zero denominator
+      ka, kb = rng.choice(_SCALE_EXPONENTS), rng.choice(_SCALE_EXPONENTS)
+      if rng.random() < 0.5:
+        ka = kb
+      config['scale_exp'] = [ka, kb]
+      a = [x * 2.0 ** ka for x in a]
+      b = [x * 2.0 ** kb for x in b]
+    return {'family': 'misc', 'sub': 'mathutils', 'config': config,
+            'input': {'a': a, 'b': b}}
   if sub == 'flip':
     m = rng.randint(1, 6)
     mode = rng.choice(['bool', 'int', 'thr', 'thr'])
